@@ -51,7 +51,7 @@ class TableauIntegrator(IntegratorTemplate, abc.ABC):
         self._explicit = None
         self._adaptive = False
         self._fsal = False
-        self._adaptivity_enabled = self._adaptive
+        self._adaptivity_enabled = True
         self._explicit_stages = None
         self._implicit_stages = None
 
@@ -80,7 +80,8 @@ class TableauIntegrator(IntegratorTemplate, abc.ABC):
     
     @property
     def is_adaptive(self):
-        return self._adaptive and not self._adaptivity_enabled
+        # a method with an embedded estimator adapts its step unless that has been switched off (`integrator.is_adaptive = False`)
+        return self._adaptive and self._adaptivity_enabled
     
     @is_adaptive.setter
     def is_adaptive(self, adaptivity):
@@ -608,7 +609,7 @@ def generate_richardson_integrator(basis_integrator, richardson_iter=2):
         
         @property
         def is_adaptive(self):
-            return self._adaptive and not self._adaptivity_enabled
+            return self._adaptive and getattr(self, "_adaptivity_enabled", True)
         
         @is_adaptive.setter
         def is_adaptive(self, adaptivity):
